@@ -188,7 +188,7 @@ theorem sReadBits_ok (n : Nat) (a r : Bits) (ha : a.length = n) : Utcp.readBits 
 /-- `bitbuf_read_bits`: the bit-level `readBits` on what is left; the caller's array of `(n+7)/8` bytes receives the bits, its unused top bits are zero;
 nothing outside that array and nothing beyond the byte of the last valid bit of the buffer is touched -/
 theorem readBits_refines (b : Buf) (hb : RB b) (out : Mem) (hout : BytesOK out) (n : Nat) (hlen : out.length = (n + 7) / 8) :
-    ∃ ok out' b', readBits b out n = some (ok, out', b') ∧ RB b' ∧ b'.mem = b.mem ∧ b'.size = b.size ∧ out'.length = out.length ∧
+    ∃ ok out' b', readBits b out n = some (ok, out', b') ∧ RB b' ∧ b'.mem = b.mem ∧ b'.size = b.size ∧ out'.length = out.length ∧ BytesOK out' ∧
       Utcp.readBits n (rest b) = (if ok then .ok (bitsFrom out' 0 n) (rest b') else .fail (rest b')) ∧
       (ok = true → ∀ k, n ≤ k → bit out' k = false) ∧ (ok = false → b' = b ∧ out' = out) := by
   unfold readBits allowOpt
@@ -211,7 +211,7 @@ theorem readBits_refines (b : Buf) (hb : RB b) (out : Mem) (hout : BytesOK out) 
         · exact bit_oob _ _ (by omega)
       cases hbit : bit b.mem b.num
       · simp only [Bool.false_eq_true, if_false]
-        refine ⟨true, _, _, rfl, hrb, rfl, rfl, by simp, ?_, fun _ k _ => hz k, by simp⟩
+        refine ⟨true, _, _, rfl, hrb, rfl, rfl, by simp, bytesOK_set out hout _ _, ?_, fun _ k _ => hz k, by simp⟩
         rw [hsplit, sReadBits_ok 1 _ _ (by simp)]
         simp [bitsFrom, hbit, hz]
       · simp only [if_true]
@@ -236,7 +236,7 @@ theorem readBits_refines (b : Buf) (hb : RB b) (out : Mem) (hout : BytesOK out) 
           · rw [bit_oob _ _ (by simp [hlen]; omega)]
             have : k ≠ 0 := by omega
             simp [this]
-        refine ⟨true, _, _, rfl, hrb, rfl, rfl, by simp, ?_, fun _ k hk => by rw [hb1 k]; simp; omega, by simp⟩
+        refine ⟨true, _, _, rfl, hrb, rfl, rfl, by simp, bytesOK_set _ (bytesOK_set out hout _ _) _ _, ?_, fun _ k hk => by rw [hb1 k]; simp; omega, by simp⟩
         rw [hsplit, sReadBits_ok 1 _ _ (by simp)]
         simp only [if_true, bitsFrom]
         rw [hb1 0, hbit]
@@ -245,7 +245,7 @@ theorem readBits_refines (b : Buf) (hb : RB b) (out : Mem) (hout : BytesOK out) 
       by_cases h0 : n = 0
       · subst h0
         simp only [ne_eq, not_true_eq_false, if_false]
-        refine ⟨true, out, b, rfl, hb, rfl, rfl, rfl, ?_, fun _ k _ => bit_oob _ _ (by omega), by simp⟩
+        refine ⟨true, out, b, rfl, hb, rfl, rfl, rfl, hout, ?_, fun _ k _ => bit_oob _ _ (by omega), by simp⟩
         simp [Utcp.readBits, bitsFrom]
       · rw [if_pos h0, wr_of_lt _ _ _ (by omega)]
         simp only [Option.bind_some]
@@ -253,7 +253,7 @@ theorem readBits_refines (b : Buf) (hb : RB b) (out : Mem) (hout : BytesOK out) 
         obtain ⟨o1, ho1, hl1, hk1, hbits1⟩ := appBitsCpy_spec (out.set ((n + 7) / 8 - 1) (0 % 256)) b.mem ok0 hb.bytes 0 b.num n (by simp; omega) (by omega)
         rw [ho1]
         simp only [Option.bind_some]
-        refine ⟨true, o1, _, rfl, hrb, rfl, rfl, by rw [hl1]; simp, ?_, ?_, by simp⟩
+        refine ⟨true, o1, _, rfl, hrb, rfl, rfl, by rw [hl1]; simp, hk1, ?_, ?_, by simp⟩
         · rw [hsplit, sReadBits_ok n _ _ (by simp)]
           simp only [if_true]
           congr 1
@@ -270,7 +270,7 @@ theorem readBits_refines (b : Buf) (hb : RB b) (out : Mem) (hout : BytesOK out) 
           by_cases hk8 : k / 8 = (n + 7) / 8 - 1
           · rw [bit_set _ _ _ _ (by omega), if_pos hk8]; simp
           · exact bit_oob _ _ (by simp; omega)
-  · refine ⟨false, out, b, by simp [hfit], hb, rfl, rfl, rfl, ?_, by simp, by simp⟩
+  · refine ⟨false, out, b, by simp [hfit], hb, rfl, rfl, rfl, hout, ?_, by simp, by simp⟩
     simp only [Bool.false_eq_true, if_false]
     unfold Utcp.readBits
     have hnum := hb.num
@@ -1115,7 +1115,7 @@ theorem read_back_bits (rb : Buf) (hrb : RB rb) (w r : Bits) (out : Mem) (hout :
     (hrest : rest rb = w ++ r) :
     ∃ out' rb', readBits rb out w.length = some (true, out', rb') ∧ RB rb' ∧ rest rb' = r ∧ bitsFrom out' 0 w.length = w ∧
       out'.length = out.length ∧ ∀ k, w.length ≤ k → bit out' k = false := by
-  obtain ⟨ok, out', b', h, hrb', _, _, hl, hS, hz, _⟩ := readBits_refines rb hrb out hout w.length hlen
+  obtain ⟨ok, out', b', h, hrb', _, _, hl, _, hS, hz, _⟩ := readBits_refines rb hrb out hout w.length hlen
   rw [hrest, sReadBits_ok w.length w r rfl] at hS
   cases ok with
   | false => simp at hS
@@ -1123,4 +1123,341 @@ theorem read_back_bits (rb : Buf) (hrb : RB rb) (w r : Bits) (out : Mem) (hout :
     simp only [if_true, RR.ok.injEq] at hS
     exact ⟨out', b', h, hrb', hS.2.symm, hS.1.symm, hl, hz rfl⟩
 
+end Utcp.BB
+
+namespace Utcp.BB
+
+theorem bit_u32Bytes (v k : Nat) : bit (u32Bytes v) k = (decide (k < 32) && v.testBit k) := by
+  have h256 : (256 : Nat) = 2 ^ 8 := rfl
+  have h65536 : (65536 : Nat) = 2 ^ 16 := rfl
+  have h16777216 : (16777216 : Nat) = 2 ^ 24 := rfl
+  by_cases hk : k < 32
+  · have hj : k % 8 < 8 := by omega
+    unfold bit u32Bytes
+    have hcases : k / 8 = 0 ∨ k / 8 = 1 ∨ k / 8 = 2 ∨ k / 8 = 3 := by omega
+    rcases hcases with h | h | h | h
+    · rw [h]; simp only [List.getD_cons_zero]
+      rw [testBit_mod256]
+      have : k % 8 = k := by omega
+      rw [this]
+      have : k < 8 := by omega
+      simp [hk, this]
+    · rw [h]; simp only [List.getD_cons_succ, List.getD_cons_zero]
+      rw [testBit_mod256, h256, Nat.testBit_div_two_pow]
+      have : k % 8 + 8 = k := by omega
+      rw [this]
+      simp [hk, hj]
+    · rw [h]; simp only [List.getD_cons_succ, List.getD_cons_zero]
+      rw [testBit_mod256, h65536, Nat.testBit_div_two_pow]
+      have : k % 8 + 16 = k := by omega
+      rw [this]
+      simp [hk, hj]
+    · rw [h]; simp only [List.getD_cons_succ, List.getD_cons_zero]
+      rw [testBit_mod256, h16777216, Nat.testBit_div_two_pow]
+      have : k % 8 + 24 = k := by omega
+      rw [this]
+      simp [hk, hj]
+  · rw [bit_oob _ _ (by simp [u32Bytes]; omega)]
+    simp [hk]
+
+theorem bitsFrom_u32Bytes (v : Nat) : bitsFrom (u32Bytes v) 0 32 = natToBits v 32 := by
+  have := bitsFrom_eq (u32Bytes v) (natToBits v 32) 0 (by
+    intro i hi
+    simp only [natToBits_length] at hi
+    rw [natToBits_getD, bit_u32Bytes]
+    simp)
+  simpa using this
+
+theorem bytesOK_u32Bytes (v : Nat) : BytesOK (u32Bytes v) := by
+  intro x hx
+  simp only [u32Bytes, List.mem_cons, List.not_mem_nil, or_false] at hx
+  rcases hx with h | h | h | h <;> (subst h; omega)
+
+/-- `bitbuf_write_int_byte_order` on a little-endian host: the 32 bits of the value, least significant first -/
+theorem writeU32_refines (b : Buf) (hb : WB b) (v : Nat) :
+    (b.num + 32 ≤ b.size → ∃ b', writeU32 b v = some (true, b') ∧ WB b' ∧ b'.size = b.size ∧ content b' = content b ++ Utcp.writeU32 v) ∧
+    (¬ b.num + 32 ≤ b.size → writeU32 b v = some (false, b)) := by
+  have h := writeBytes_refines b hb (u32Bytes v) (bytesOK_u32Bytes v) 4 (by simp [u32Bytes])
+  have e : (4 : Nat) * 8 = 32 := rfl
+  rw [e] at h
+  unfold writeU32 Utcp.writeU32
+  rw [← bitsFrom_u32Bytes]
+  exact h
+
+end Utcp.BB
+
+namespace Utcp.BB
+
+/-- the value of four bytes in memory order is the number whose bits they are -/
+theorem le32_eq (o : Mem) (ho : BytesOK o) (hl : o.length = 4) :
+    o.getD 0 0 + 256 * o.getD 1 0 + 65536 * o.getD 2 0 + 16777216 * o.getD 3 0 = bitsToNat (bitsFrom o 0 32) := by
+  have h0 := getD_lt_256 o ho 0
+  have h1 := getD_lt_256 o ho 1
+  have h2 := getD_lt_256 o ho 2
+  have h3 := getD_lt_256 o ho 3
+  have hv : u32Bytes (o.getD 0 0 + 256 * o.getD 1 0 + 65536 * o.getD 2 0 + 16777216 * o.getD 3 0) = o := by
+    match o, hl with
+    | [a, b, c, d], _ =>
+      simp only [List.getD_cons_zero, List.getD_cons_succ] at h0 h1 h2 h3 ⊢
+      unfold u32Bytes
+      congr 1
+      · omega
+      · congr 1
+        · omega
+        · congr 1
+          · omega
+          · congr 1; omega
+  have hlt : o.getD 0 0 + 256 * o.getD 1 0 + 65536 * o.getD 2 0 + 16777216 * o.getD 3 0 < 2 ^ 32 := by omega
+  generalize o.getD 0 0 + 256 * o.getD 1 0 + 65536 * o.getD 2 0 + 16777216 * o.getD 3 0 = v at hv hlt
+  rw [← hv, bitsFrom_u32Bytes, bitsToNat_natToBits, Nat.mod_eq_of_lt hlt]
+
+/-- `bitbuf_read_int_byte_order` (little-endian host) is the bit-level `readU32` on the bits that are left -/
+theorem readU32_refines (b : Buf) (hb : RB b) :
+    ∃ ok v b', readU32 b = some (ok, v, b') ∧ RB b' ∧ b'.mem = b.mem ∧ b'.size = b.size ∧
+      Utcp.readU32 (rest b) = (if ok then .ok v (rest b') else .fail (rest b')) := by
+  obtain ⟨ok, out', b', h, hrb', hm, hsz, hl, hok, hS, _, _⟩ := readBits_refines b hb [0, 0, 0, 0] (by intro x hx; simp at hx; omega) 32 (by simp)
+  unfold readU32
+  rw [h]
+  simp only [Option.bind_some]
+  refine ⟨ok, _, b', rfl, hrb', hm, hsz, ?_⟩
+  unfold Utcp.readU32
+  rw [hS]
+  cases ok with
+  | false => simp
+  | true =>
+    simp only [if_true]
+    rw [le32_eq out' hok (by simpa using hl)]
+
+end Utcp.BB
+
+namespace Utcp.BB
+
+/-- one call of the property's vocabulary, with the arguments the C function gets (`data` = the caller's array) -/
+inductive LOp where
+  | bit (v : Nat)
+  | run (data : Mem) (n : Nat)
+  | bytes (data : Mem) (size : Nat)
+  | int (v mx : Nat)
+  | packed (v : Nat)
+  | wrapped (v k : Nat)
+  | word (v : Nat)
+
+/-- in-range arguments: arrays of bytes that hold the bits passed, `value < max ≤ 2^32`, 32-bit values -/
+def LOp.ok : LOp → Prop
+  | .bit _ => True
+  | .run data n => BytesOK data ∧ n ≤ 8 * data.length
+  | .bytes data size => BytesOK data ∧ size ≤ data.length
+  | .int v mx => v < mx ∧ mx ≤ 2 ^ 32
+  | .packed v => v < 2 ^ 32
+  | .wrapped _ k => k ≤ 32
+  | .word v => v < 2 ^ 32
+
+/-- the bits the call appends (bit-level model) -/
+def LOp.bits : LOp → Bits
+  | .bit v => [decide (v % 256 ≠ 0)]
+  | .run data n => bitsFrom data 0 n
+  | .bytes data size => bitsFrom data 0 (size * 8)
+  | .int v mx => Utcp.writeInt v mx
+  | .packed v => Utcp.writeIntPacked v
+  | .wrapped v k => Utcp.writeIntWrapped v (2 ^ k)
+  | .word v => Utcp.writeU32 v
+
+/-- the room the C function insists on before it writes (`ceil(log2 max)` for the bounded integers, even when the encoding is shorter) -/
+def LOp.need : LOp → Nat
+  | .int _ mx => ceilLogTwo mx
+  | .wrapped _ k => ceilLogTwo (2 ^ k)
+  | o => o.bits.length
+
+def LOp.write : LOp → Buf → Option (Bool × Buf)
+  | .bit v, b => writeBit b v
+  | .run data n, b => writeBits b data n
+  | .bytes data size, b => writeBytes b data size
+  | .int v mx, b => writeInt b v mx
+  | .packed v, b => writeIntPacked b v
+  | .wrapped v k, b => writeIntWrapped b v (2 ^ k)
+  | .word v, b => writeU32 b v
+
+/-- the calls one after the other; stops at the first refusal -/
+def writeAll : List LOp → Buf → Option (Bool × Buf)
+  | [], b => some (true, b)
+  | o :: os, b => (o.write b).bind fun (ok, b') => if ok then writeAll os b' else some (false, b')
+
+def needAll (ops : List LOp) : Nat := (ops.map LOp.need).sum
+
+theorem LOp.write_spec (o : LOp) (ho : o.ok) (b : Buf) (hb : WB b) (hfit : b.num + o.need ≤ b.size) :
+    ∃ b', o.write b = some (true, b') ∧ WB b' ∧ b'.size = b.size ∧ content b' = content b ++ o.bits ∧ b'.num ≤ b.num + o.need := by
+  have hnum : ∀ b' : Buf, content b' = content b ++ o.bits → b'.num = b.num + o.bits.length := by
+    intro b' h
+    have := congrArg List.length h
+    simpa [content] using this
+  cases o with
+  | bit v =>
+    obtain ⟨b', h1, h2, h3, h4⟩ := (writeBit_refines b hb v).1 (by simpa [LOp.need, LOp.bits] using hfit)
+    exact ⟨b', h1, h2, h3, h4, by rw [hnum b' h4]; simp [LOp.need]⟩
+  | run data n =>
+    obtain ⟨b', h1, h2, h3, h4⟩ := (writeBits_refines b hb data ho.1 n ho.2).1 (by simpa [LOp.need, LOp.bits] using hfit)
+    exact ⟨b', h1, h2, h3, h4, by rw [hnum b' h4]; simp [LOp.need]⟩
+  | bytes data size =>
+    obtain ⟨b', h1, h2, h3, h4⟩ := (writeBytes_refines b hb data ho.1 size ho.2).1 (by simpa [LOp.need, LOp.bits] using hfit)
+    exact ⟨b', h1, h2, h3, h4, by rw [hnum b' h4]; simp [LOp.need]⟩
+  | int v mx =>
+    obtain ⟨b', h1, h2, h3, h4⟩ := (writeInt_refines b hb v mx ho.2).1 ho.1 (by simpa [LOp.need] using hfit)
+    refine ⟨b', h1, h2, h3, h4, ?_⟩
+    rw [hnum b' h4]
+    have := Utcp.writeInt_length_le v mx _ (le_two_pow_ceilLogTwo mx ho.2)
+    simp only [LOp.need, LOp.bits]; omega
+  | packed v =>
+    obtain ⟨b', h1, h2, h3, h4⟩ := (writeIntPacked_refines b hb v).1 (by simpa [LOp.need, LOp.bits] using hfit)
+    exact ⟨b', h1, h2, h3, h4, by rw [hnum b' h4]; simp [LOp.need]⟩
+  | wrapped v k =>
+    have h32 : 2 ^ k ≤ 2 ^ 32 := Nat.pow_le_pow_right (by omega) ho
+    obtain ⟨b', h1, h2, h3, h4⟩ := (writeIntWrapped_refines b hb v (2 ^ k) h32).1 (by simpa [LOp.need] using hfit)
+    refine ⟨b', h1, h2, h3, h4, ?_⟩
+    rw [hnum b' h4]
+    have := Utcp.writeInt_length_le v (2 ^ k) _ (le_two_pow_ceilLogTwo (2 ^ k) h32)
+    simp only [LOp.need, LOp.bits, Utcp.writeIntWrapped]
+    unfold Utcp.writeInt at this
+    omega
+  | word v =>
+    obtain ⟨b', h1, h2, h3, h4⟩ := (writeU32_refines b hb v).1 (by simpa [LOp.need, LOp.bits, Utcp.writeU32] using hfit)
+    exact ⟨b', h1, h2, h3, h4, by rw [hnum b' h4]; simp [LOp.need]⟩
+
+/-- **any sequence of writes that fits**: every call succeeds and the buffer holds, in order, exactly the bits of the bit-level model -/
+theorem writeAll_spec : ∀ (ops : List LOp) (b : Buf), (∀ o ∈ ops, o.ok) → WB b → b.num + needAll ops ≤ b.size →
+    ∃ b', writeAll ops b = some (true, b') ∧ WB b' ∧ b'.size = b.size ∧ content b' = content b ++ ops.flatMap LOp.bits ∧ b'.num ≤ b.num + needAll ops := by
+  intro ops
+  induction ops with
+  | nil => intro b _ hb _; exact ⟨b, rfl, hb, rfl, by simp, by simp [needAll]⟩
+  | cons o os ih =>
+    intro b hok hb hfit
+    have hn : needAll (o :: os) = o.need + needAll os := by simp [needAll]
+    rw [hn] at hfit
+    obtain ⟨b1, h1, hwb1, hs1, hc1, hn1⟩ := o.write_spec (hok o (by simp)) b hb (by omega)
+    obtain ⟨b2, h2, hwb2, hs2, hc2, hn2⟩ := ih b1 (fun x hx => hok x (by simp [hx])) hwb1 (by rw [hs1]; omega)
+    refine ⟨b2, ?_, hwb2, by rw [hs2, hs1], ?_, by rw [hn]; omega⟩
+    · simp only [writeAll, h1, Option.bind_some, if_true]; exact h2
+    · rw [hc2, hc1]; simp [List.flatMap_cons]
+
+end Utcp.BB
+
+namespace Utcp.BB
+
+/-- the matching read, compared with what was written -/
+def LOp.readBack : LOp → Buf → Option (Bool × Buf)
+  | .bit v, b => (readBit b).bind fun (ok, x, b') => some (ok && (decide (x = 1) == decide (v % 256 ≠ 0)), b')
+  | .run data n, b => (readBits b (List.replicate ((n + 7) / 8) 0) n).bind fun (ok, out, b') => some (ok && (bitsFrom out 0 n == bitsFrom data 0 n), b')
+  | .bytes data size, b => (readBytes b (List.replicate size 0) size).bind fun (ok, out, b') =>
+      some (ok && (bitsFrom out 0 (size * 8) == bitsFrom data 0 (size * 8)), b')
+  | .int v mx, b => (readInt b mx).bind fun (ok, x, b') => some (ok && x == v, b')
+  | .packed v, b => (readIntPacked b).bind fun (ok, x, b') => some (ok && x == v, b')
+  | .wrapped v k, b => (readInt b (2 ^ k)).bind fun (ok, x, b') => some (ok && x == v % 2 ^ k, b')
+  | .word v, b => (readU32 b).bind fun (ok, x, b') => some (ok && x == v, b')
+
+def readAllL : List LOp → Buf → Option (Bool × Buf)
+  | [], b => some (true, b)
+  | o :: os, b => (o.readBack b).bind fun (ok, b') => if ok then readAllL os b' else some (false, b')
+
+theorem bytesOK_replicate (n : Nat) : BytesOK (List.replicate n 0) := by
+  intro x hx
+  have := List.eq_of_mem_replicate hx
+  omega
+
+theorem LOp.readBack_spec (o : LOp) (ho : o.ok) (rb : Buf) (hrb : RB rb) (r : Bits) (hrest : rest rb = o.bits ++ r) :
+    ∃ rb', o.readBack rb = some (true, rb') ∧ RB rb' ∧ rest rb' = r := by
+  cases o with
+  | bit v =>
+    obtain ⟨ok, x, b', h, hrb', _, _, hS, _⟩ := readBit_refines rb hrb
+    rw [hrest] at hS
+    simp only [LOp.bits, List.cons_append, List.nil_append, Utcp.readBit] at hS
+    cases ok with
+    | false => simp at hS
+    | true =>
+      simp only [if_true, RR.ok.injEq] at hS
+      refine ⟨b', ?_, hrb', hS.2.symm⟩
+      simp only [LOp.readBack, h, Option.bind_some, Bool.true_and]
+      rw [← hS.1]; simp
+  | run data n =>
+    obtain ⟨out', rb', h, hrb', hr, hb, _, _⟩ := read_back_bits rb hrb (bitsFrom data 0 n) r (List.replicate ((n + 7) / 8) 0)
+      (bytesOK_replicate _) (by simp) hrest
+    simp only [bitsFrom_length] at h hb
+    exact ⟨rb', by simp [LOp.readBack, h, hb], hrb', hr⟩
+  | bytes data size =>
+    obtain ⟨out', rb', h, hrb', hr, hb, _, _⟩ := read_back_bits rb hrb (bitsFrom data 0 (size * 8)) r (List.replicate size 0)
+      (bytesOK_replicate _) (by simp; omega) hrest
+    simp only [bitsFrom_length] at h hb
+    exact ⟨rb', by simp [LOp.readBack, readBytes, h, hb], hrb', hr⟩
+  | int v mx =>
+    obtain ⟨rb', h, hrb', hr⟩ := read_back_int rb hrb v mx r ho.1 ho.2 hrest
+    exact ⟨rb', by simp [LOp.readBack, h], hrb', hr⟩
+  | packed v =>
+    obtain ⟨rb', h, hrb', hr⟩ := read_back_packed rb hrb v r ho hrest
+    exact ⟨rb', by simp [LOp.readBack, h], hrb', hr⟩
+  | wrapped v k =>
+    obtain ⟨ok, x, b', h, hrb', _, _, hS, _⟩ := readInt_refines rb hrb (2 ^ k)
+    rw [hrest] at hS
+    simp only [LOp.bits] at hS
+    rw [Utcp.readInt_wrapped_pow2 k v r ho] at hS
+    cases ok with
+    | false => simp at hS
+    | true =>
+      simp only [if_true, RR.ok.injEq] at hS
+      exact ⟨b', by simp [LOp.readBack, h, hS.1], hrb', hS.2.symm⟩
+  | word v =>
+    obtain ⟨ok, x, b', h, hrb', _, _, hS⟩ := readU32_refines rb hrb
+    rw [hrest] at hS
+    simp only [LOp.bits] at hS
+    rw [Utcp.readU32_write, Nat.mod_eq_of_lt ho] at hS
+    cases ok with
+    | false => simp at hS
+    | true =>
+      simp only [if_true, RR.ok.injEq] at hS
+      exact ⟨b', by simp [LOp.readBack, h, hS.1], hrb', hS.2.symm⟩
+
+theorem readAllL_spec : ∀ (ops : List LOp) (rb : Buf) (r : Bits), (∀ o ∈ ops, o.ok) → RB rb → rest rb = ops.flatMap LOp.bits ++ r →
+    ∃ rb', readAllL ops rb = some (true, rb') ∧ RB rb' ∧ rest rb' = r := by
+  intro ops
+  induction ops with
+  | nil => intro rb r _ hrb h; exact ⟨rb, rfl, hrb, by simpa using h⟩
+  | cons o os ih =>
+    intro rb r hok hrb h
+    simp only [List.flatMap_cons, List.append_assoc] at h
+    obtain ⟨rb1, h1, hrb1, hr1⟩ := o.readBack_spec (hok o (by simp)) rb hrb _ h
+    obtain ⟨rb2, h2, hrb2, hr2⟩ := ih rb1 r (fun x hx => hok x (by simp [hx])) hrb1 hr1
+    exact ⟨rb2, by simp only [readAllL, h1, Option.bind_some, if_true]; exact h2, hrb2, hr2⟩
+
+/-- **C12 at the level of the byte array**: into a zeroed buffer of `cap` bytes, every sequence of in-range writes for which there is room (plus one bit
+for the terminator) succeeds call by call; closing it, taking exactly the bytes that hold valid bits as the datagram, and opening that for reading,
+the matching sequence of reads succeeds call by call, returns what was written, and ends with nothing left - and on the way no byte outside any of the
+arrays involved was read or written (every step is `some _` in a model where such an access is `none`). -/
+theorem byte_level_round_trip (cap : Nat) (ops : List LOp) (hok : ∀ o ∈ ops, o.ok) (hfit : needAll ops + 1 ≤ 8 * cap) :
+    ∃ b1 b2 rb rb', writeAll ops ⟨List.replicate cap 0, 8 * cap, 0⟩ = some (true, b1) ∧ writeEnd b1 = some (true, b2) ∧
+      readInit (b2.mem.take ((b2.num + 7) / 8)) = some (true, rb) ∧ readAllL ops rb = some (true, rb') ∧ rest rb' = [] ∧
+      content b1 = ops.flatMap LOp.bits := by
+  have hwb0 : WB ⟨List.replicate cap 0, 8 * cap, 0⟩ := by
+    refine ⟨bytesOK_replicate cap, by simp, by simp, ?_⟩
+    intro k _
+    unfold bit
+    have : (List.replicate cap 0).getD (k / 8) 0 = 0 := by
+      simp only [List.getD]
+      by_cases h : k / 8 < cap
+      · simp [List.getElem?_replicate, h]
+      · simp [List.getElem?_replicate, h]
+    simp only at this ⊢
+    rw [this]; simp
+  obtain ⟨b1, h1, hwb1, hs1, hc1, hn1⟩ := writeAll_spec ops _ hok hwb0 (by simp; omega)
+  simp only [content, bitsFrom, List.nil_append] at hc1
+  obtain ⟨b2, h2, _, rb, h3, hrb, _, hr⟩ := finish_then_init b1 hwb1 (by rw [hs1]; simp at hn1 ⊢; omega)
+  obtain ⟨rb', h4, _, hr4⟩ := readAllL_spec ops rb [] hok hrb (by rw [hr]; simpa [content] using hc1)
+  exact ⟨b1, b2, rb, rb', h1, h2, h3, h4, hr4, by simpa [content] using hc1⟩
+
+end Utcp.BB
+
+namespace Utcp.BB
+/-- non-vacuity: a mixed script at an unaligned cursor (88 bits + terminator) in a 12-byte buffer meets the hypotheses -/
+example : (∀ o ∈ [LOp.bit 1, .int 5 10, .packed 300, .run [0xA5, 0x3C] 13, .wrapped 77 6, .word 305419896, .bytes [1, 2] 2], o.ok) ∧
+    needAll [LOp.bit 1, .int 5 10, .packed 300, .run [0xA5, 0x3C] 13, .wrapped 77 6, .word 305419896, .bytes [1, 2] 2] + 1 ≤ 8 * 12 := by
+  refine ⟨?_, by decide⟩
+  intro o ho
+  simp only [List.mem_cons, List.not_mem_nil, or_false] at ho
+  rcases ho with h | h | h | h | h | h | h <;> subst h <;> simp [LOp.ok, BytesOK]
 end Utcp.BB
